@@ -104,6 +104,11 @@ func (p *AV1Payloader) Payload(mtu uint16, payload []byte) (payloads [][]byte) {
 				newSequence = false
 				currentPacketOBUHeader = nil
 			}
+		} else if needNewPacket {
+			// Nothing is pending (the previous OBU was dropped or this is the first
+			// one): the decision still has to reach the OBU that is written next.
+			startWithNewPacket = true
+			currentPacketOBUHeader = nil
 		}
 
 		// Remember the layer of the packet this OBU goes into; this has to happen after
